@@ -326,7 +326,7 @@ func (l *Linter) lintSwitchStatement(stmt *ast.SwitchStatement, ctx *context.Con
 func (l *Linter) lintRestartStatement(stmt *ast.RestartStatement, ctx *context.Context) types.Type {
 	// restart statement enables in RECV, HIT, FETCH, ERROR and DELIVER scope
 	// In a subroutine of several scopes the statement must be available in all of them
-	if allowed := context.RECV | context.HIT | context.FETCH | context.ERROR | context.DELIVER; ctx.Mode()&allowed != ctx.Mode() {
+	if allowed := context.RECV | context.HIT | context.FETCH | context.ERROR | context.DELIVER; ctx.Mode() == 0 || ctx.Mode()&allowed != ctx.Mode() {
 		err := &LintError{
 			Severity: ERROR,
 			Token:    stmt.GetMeta().Token,
@@ -455,7 +455,7 @@ func (l *Linter) lintCallStatement(stmt *ast.CallStatement, ctx *context.Context
 func (l *Linter) lintErrorStatement(stmt *ast.ErrorStatement, ctx *context.Context) types.Type {
 	// error statement could use in RECV, HIT, MISS, PASS, and FETCH.
 	// In a subroutine of several scopes the statement must be available in all of them
-	if allowed := context.RECV | context.HIT | context.MISS | context.PASS | context.FETCH; ctx.Mode()&allowed != ctx.Mode() {
+	if allowed := context.RECV | context.HIT | context.MISS | context.PASS | context.FETCH; ctx.Mode() == 0 || ctx.Mode()&allowed != ctx.Mode() {
 		err := &LintError{
 			Severity: ERROR,
 			Token:    stmt.GetMeta().Token,
@@ -617,7 +617,7 @@ func (l *Linter) lintReturnStatement(stmt *ast.ReturnStatement, ctx *context.Con
 
 func (l *Linter) lintSyntheticStatement(stmt *ast.SyntheticStatement, ctx *context.Context) types.Type {
 	// synthetic statement only available in ERROR.
-	if ctx.Mode()&(context.ERROR) != ctx.Mode() {
+	if ctx.Mode() == 0 || ctx.Mode()&(context.ERROR) != ctx.Mode() {
 		err := &LintError{
 			Severity: ERROR,
 			Token:    stmt.GetMeta().Token,
@@ -690,7 +690,7 @@ func (l *Linter) lintIdent(exp *ast.Ident, ctx *context.Context) types.Type {
 
 func (l *Linter) lintSyntheticBase64Statement(stmt *ast.SyntheticBase64Statement, ctx *context.Context) types.Type {
 	// synthetic.base64 is similer to synthetic statement, but expression is base64 encoded.
-	if ctx.Mode()&(context.ERROR) != ctx.Mode() {
+	if ctx.Mode() == 0 || ctx.Mode()&(context.ERROR) != ctx.Mode() {
 		err := &LintError{
 			Severity: ERROR,
 			Token:    stmt.GetMeta().Token,
